@@ -3,13 +3,11 @@ module verifharness
 go 1.20
 
 require (
+	github.com/evergreen-ci/birch v0.0.0-20191213201306-f4dae6f450a2
 	github.com/mongodb/ftdc v0.0.0
 	go.mongodb.org/mongo-driver v1.11.1
 )
 
-require (
-	github.com/evergreen-ci/birch v0.0.0-20191213201306-f4dae6f450a2 // indirect
-	github.com/pkg/errors v0.9.1 // indirect
-)
+require github.com/pkg/errors v0.9.1 // indirect
 
 replace github.com/mongodb/ftdc => /repo
